@@ -131,3 +131,19 @@ def run_given(test_body, strategy, seed: int, max_examples: int):
 def spread(total: int, n: int) -> list[int]:
     base, rem = divmod(total, n)
     return [base + (1 if i < rem else 0) for i in range(n)]
+
+
+def open_known(pid: str):
+    """Open known-finding entries for a property (read-only file)."""
+    p = HOME / "known_findings.json"
+    if not p.exists():
+        return []
+    return [k for k in json.loads(p.read_text()).get("findings", []) if k.get("status") == "open" and k.get("property") == pid]
+
+
+def withheld_constructs(pid: str):
+    """Construct names the generators withhold because an open known finding covers them."""
+    out = set()
+    for k in open_known(pid):
+        out.update(k.get("withhold", []))
+    return out
